@@ -76,7 +76,7 @@ Min(S) == CHOOSE x \in S : \A y \in S : x <= y
 Max(S) == CHOOSE x \in S : \A y \in S : y <= x
 NoVal == -8
 StatsOf(rg, col) ==
-  [has |-> rg.stats,
+  [has |-> rg.stats /\ (rg.only = "both" \/ rg.only = col),     \* stats=True / stats=[col]: min/max per column
    nulls |-> Cardinality({r \in DOMAIN rg.rows : rg.rows[r][col] = NULL}),
    n |-> Len(rg.rows),
    min |-> IF NonNull(rg, col) = {} \/ (ZeroIsEmpty /\ col = "x" /\ Min(NonNull(rg, col)) = 0) THEN NoVal
